@@ -146,7 +146,7 @@ def c02_e(ctx):
     boot()
     k = ctx.pick(1, 2)
     names = ['fork_join', 'join_2_of_3_mixed', 'conditional',
-             'join_fed_by_error']
+             'join_fed_by_error', 'join_partial_deep']
     for n in names:
         yield Case(n + '/reorder', _c02_e_case(n, shapes.RUN_SHAPES[n], k,
                                                False, False),
@@ -306,7 +306,7 @@ def c02_3(ctx):
                'mistral.workflow.context_versioning:_merge_ctx',
                'mistral.workflow.context_versioning:_merge_versions'],
     timeout=(240, 1800),
-    bounds='three contexts over keys {a, n.k (nested)} (thorough: + b): presence of each '
+    bounds='three contexts over keys {a, n.m.k (nested 3 deep)} (thorough: + n.k): presence of each '
            'key symbolic, values symbolic integers, versions symbolic >= 0; '
            'assumption: equal version of a key => equal value (branches do '
            'not publish conflicting values); unhashed and md5-hashed version '
@@ -320,7 +320,8 @@ def c02_1(ctx):
     import copy
     from oslo_config import cfg
     from mistral.workflow import context_versioning as cv
-    KEYS = [('a',), ('n', 'k')] if ctx.quick else [('a',), ('b',), ('n', 'k')]
+    KEYS = [('a',), ('n', 'm', 'k')] if ctx.quick else \
+        [('a',), ('n', 'k'), ('n', 'm', 'k')]
 
     def vkey(path, hashed):
         s = '.'.join(path)
